@@ -12,9 +12,10 @@ import subprocess
 import time
 
 VERIF = os.path.dirname(os.path.dirname(os.path.abspath(__file__)))
-SCRATCH = os.path.join(VERIF, 'build', 'kx-src')
-TARGET = os.path.join(VERIF, 'build', 'kx-target')
-LOCK = os.path.join(VERIF, 'build', 'kx.lock')
+BUILD = os.environ.get('VERIF_BUILD') or os.path.join(VERIF, 'build')
+SCRATCH = os.path.join(BUILD, 'kx-src')
+TARGET = os.path.join(BUILD, 'kx-target')
+LOCK = os.path.join(BUILD, 'kx.lock')
 
 # group -> description.  Each harness: name, source file it is injected into, function(s) under proof,
 # label, properties, bounded (None or text), expect ('pass' or 'known-fail').
@@ -140,7 +141,7 @@ def run_group(group, repo='/repo', tier='quick'):
     g = kgroups.G[group]
     r = KResult(group)
     t0 = time.time()
-    os.makedirs(os.path.join(VERIF, 'build'), exist_ok=True)
+    os.makedirs(BUILD, exist_ok=True)
     hs = [h for h in g['harnesses'] if tier == 'thorough' or not h.get('thorough_only')]
     with open(LOCK, 'w') as lk:
         fcntl.flock(lk, fcntl.LOCK_EX)
